@@ -1074,6 +1074,23 @@ def c06_build(ctx):
         n = rng.randint(4, 30)
         seq = tuple(rng.choice(C06_ALPHA_LOOK) if rng.random() < 0.7 else ("S",) for _ in range(n)) + (("S",),)
         cases.append(mk("media", c06_render(seq), group="look-alike-formats-long", meta={"seq": seq}))
+    # strings the source spells now and did not spell when source_literals.json was written: each as a KEYFORMAT of its own,
+    # next to every well-known format (it is its own format unless it IS one of the well-known strings)
+    known = {"identity": "identity", "com.apple.streamingkeydelivery": "kfF", "urn:uuid:edef8ba9-79d6-4ace-a3c8-27dcd51d21ed": "kfW", "com.microsoft.playready": "kfP"}
+    base_n = 6
+    for lit in G.new_literals()[:12]:
+        if '"' in lit or "\n" in lit:
+            continue
+        del C06_FMT[base_n:], C06_FMT_ID[base_n:]
+        C06_FMT.extend([lit, "com.apple.streamingkeydelivery", "urn:uuid:edef8ba9-79d6-4ace-a3c8-27dcd51d21ed", "com.microsoft.playready"])
+        C06_FMT_ID.extend([known.get(lit, "other:" + lit), "kfF", "kfW", "kfP"])
+        alpha = [("K", f, u) for f in (0, 2, base_n, base_n + 1, base_n + 2, base_n + 3) for u in ("a", "b")] + [("N",), ("S",)]
+        for n in range(1, 4):
+            for seq in itertools.product(alpha, repeat=n):
+                if any(ev[0] == "K" and ev[1] == base_n for ev in seq):
+                    seq = seq + (("S",),)
+                    cases.append(mk("media", c06_render(seq), group="new-literal-as-keyformat", meta={"seq": seq, "fmt": list(C06_FMT), "fmt_id": list(C06_FMT_ID)}))
+    del C06_FMT[base_n:], C06_FMT_ID[base_n:]
     return cases
 
 
@@ -1111,7 +1128,15 @@ def c06_oracle(ctx, cases, impl, model):
             if r.status == "ok":
                 c06_check_generic(c, a, fails)
             continue
-        acc, exp = c06_spec(seq)
+        if "fmt_id" in c.meta:          # a case rendered with its own format table (new-literal group)
+            saved = (list(C06_FMT), list(C06_FMT_ID))
+            C06_FMT[:], C06_FMT_ID[:] = c.meta["fmt"], c.meta["fmt_id"]
+            try:
+                acc, exp = c06_spec(seq)
+            finally:
+                C06_FMT[:], C06_FMT_ID[:] = saved
+        else:
+            acc, exp = c06_spec(seq)
         if acc != (r.status == "ok"):
             fails.append(dict(describe(c.line, a), what="event sequence %s: expected %s, implementation %s" % ("".join(e[0] for e in seq), "accept" if acc else "reject", r.status), law="accept"))
             continue
@@ -1164,8 +1189,10 @@ PROPS["C06"] = {
 U64 = 2**64 - 1
 
 
-def c07_case(rng, nseg=None, mseq=None):
-    """(text, expected) ; expected = None if the numbering overflows, else per segment (number, {(uri, fmt): iv})"""
+def c07_case(rng, nseg=None, mseq=None, restate=None, preset=None):
+    """(text, expected) ; expected = None if the numbering overflows, else per segment (number, {(uri, fmt): iv}).
+    restate: an earlier EXT-X-MEDIA-SEQUENCE with this value in the header (the last one counts);
+    preset: the value a pre-configured builder holds before it parses the text (the text's tag overrides it, 0 included)"""
     nseg = rng.randint(1, 6) if nseg is None else nseg
     if mseq is None:
         mseq = rng.choice([None, 0, 1, 7, 2**32, 2**63, U64 - nseg, U64 - nseg + 1, U64 - nseg + 2, U64, rng.randint(0, U64)])
@@ -1199,12 +1226,14 @@ def c07_case(rng, nseg=None, mseq=None):
     # never split a tag from ... (any line boundary is fine for a playlist-level tag)
     if mseq is not None:
         ml = "#EXT-X-MEDIA-SEQUENCE:%d" % mseq
+        if restate is not None:
+            lines.append("#EXT-X-MEDIA-SEQUENCE:%d" % restate)
         if pos == 0:
             lines.append(ml)
         else:
             body.insert(pos, ml)
     text = "\n".join(["#EXTM3U"] + lines + body) + "\n"
-    base = mseq or 0
+    base = mseq if mseq is not None else (preset or 0)
     if base + nseg - 1 > U64:
         return text, None, base
     exp = []
@@ -1248,6 +1277,16 @@ def c07_build(ctx):
             cases.append(mk("rt_media", t, group="corpus"))
     for _ in range(ctx.n(800, 8000)):
         cases.append(mk("rt_media", G.gen_media(rng, key_weight=0.5, features=ctx.features)[0], group="generated"))
+    # the tag restated (the last one counts, 0 included), and a builder that already holds a media sequence when it parses
+    small = [0, 1, 7, 2**32]
+    for a_, b_ in itertools.product(small, repeat=2):
+        for _ in range(ctx.n(6, 60)):
+            text, exp, base = c07_case(rng, mseq=b_, restate=a_)
+            cases.append(mk(rng.choice(["rt_media", "media_fromstr"]), text, group="restated", meta={"exp": exp, "base": base}))
+    for pre, inner in itertools.product(small, [None] + small):
+        for _ in range(ctx.n(5, 50)):
+            text, exp, base = c07_case(rng, mseq=inner, preset=pre)
+            cases.append(mk("build_media", "ms %d\nparse %s" % (pre, C.hx(text)), group="preset-builder", meta={"exp": exp, "base": base, "text": text}))
     # built playlists, segments with and without explicit numbers: the effective IV of a built segment is its number too
     for _ in range(ctx.n(2500, 40000)):
         n = rng.randint(1, 5)
@@ -1326,11 +1365,11 @@ def c07_oracle(ctx, cases, impl, model):
                     fails.append(dict(describe(c.line, a), what="segment %d (number %d): effective IVs %s, expected %s" % (i, n, got, ks), law="iv")); break
         # the text never carries a derived IV: every IV= in the text is an IV= of the input (case-insensitive)
         text = C.unhx(r.get("T", ""))
-        written = set(x.lower() for x in re.findall(r"IV\s*=\s*0[xX]([0-9a-fA-F]{32})", c.payload))
+        written = set(x.lower() for x in re.findall(r"IV\s*=\s*0[xX]([0-9a-fA-F]{32})", c.meta.get("text", c.payload)))
         for x in re.findall(r"IV=0[xX]([0-9a-fA-F]+)", text):
             if x.lower() not in written:
                 fails.append(dict(describe(c.line, a), what="the serialised text contains an IV that was not written in the input (derived IV written)", law="derived-iv-written")); break
-        if "InitializationVector::" in text:
+        if "InitializationVector::" in text and "InitializationVector::" not in c.meta.get("text", c.payload):
             fails.append(dict(describe(c.line, a), what="the serialised text contains a debug rendering of a derived/missing IV", law="derived-iv-written"))
     return fails
 
@@ -1847,6 +1886,23 @@ def seg_identity(s):
 SEGMENT_TAG_PREFIXES = ("#EXTINF", "#EXT-X-BYTERANGE", "#EXT-X-DISCONTINUITY", "#EXT-X-KEY", "#EXT-X-MAP", "#EXT-X-PROGRAM-DATE-TIME", "#EXT-X-DATERANGE")
 
 
+def c16_open(lines):
+    """is an item open at the end of these lines: a segment tag seen since the last URI line (RFC 8216 section 4.3.2, not the model)"""
+    op = False
+    for l in lines:
+        l = l.strip()
+        if not l:
+            continue
+        if l.startswith(SEGMENT_TAG_PREFIXES) and not l.startswith("#EXT-X-DISCONTINUITY-SEQUENCE"):
+            nxt = l[len("#EXT-X-DISCONTINUITY"):len("#EXT-X-DISCONTINUITY") + 1]
+            if l.startswith("#EXT-X-DISCONTINUITY") and nxt not in ("",):
+                continue            # a look-alike such as #EXT-X-DISCONTINUITYX is an unknown tag
+            op = True
+        elif not l.startswith("#"):
+            op = False
+    return op
+
+
 def c16_build(ctx):
     rng = ctx.rng
     cases = []
@@ -1867,7 +1923,19 @@ def c16_build(ctx):
         gid = "cut%d" % pi
         cases.append(mk("media", text, group="cut-full", meta={"cut": gid, "at": None}))
         for i in range(1, len(lines)):
-            cases.append(mk("media", "\n".join(lines[:i]) + "\n", group="cut", meta={"cut": gid, "at": i, "last": lines[i - 1].strip()}))
+            cases.append(mk("media", "\n".join(lines[:i]) + "\n", group="cut", meta={"cut": gid, "at": i, "last": lines[i - 1].strip(), "open": c16_open(lines[:i])}))
+        # the same with playlist-level tags, unknown tags and comments standing INSIDE an item (between a segment's tags and its URI
+        # line, where RFC 8216 allows them): an item stays open across them
+        inside = [j for j in range(1, len(lines)) if c16_open(lines[:j])]
+        if inside:
+            l2 = list(lines)
+            for j in sorted(rng.sample(inside, min(len(inside), rng.randint(1, 2))), reverse=True):
+                l2.insert(j, rng.choice(["#EXT-X-ENDLIST", "#EXT-X-ENDLIST", "#EXT-X-PLAYLIST-TYPE:VOD", "#EXT-X-VERSION:7", "#EXT-X-FOO:1", "# comment", "#EXT-X-START:TIME-OFFSET=1",
+                                         "#EXT-X-I-FRAMES-ONLY", "#EXT-X-DISCONTINUITY-SEQUENCE-NOT", ""]))
+            gid2 = gid + "i"
+            cases.append(mk("media", "\n".join(l2), group="cut-full", meta={"cut": gid2, "at": None}))
+            for i in range(1, len(l2)):
+                cases.append(mk("media", "\n".join(l2[:i]) + "\n", group="cut-inside-item", meta={"cut": gid2, "at": i, "last": l2[i - 1].strip(), "open": c16_open(l2[:i])}))
     # master playlists cut after a STREAM-INF
     for pi in range(ctx.n(100, 1000)):
         text = G.gen_master(rng, features=ctx.features)[0]
@@ -1917,6 +1985,10 @@ def c16_oracle(ctx, cases, impl, model):
             if bad:
                 break
     for gid, cs in cuts.items():
+        # whatever the whole text is: a cut with an item still open is never accepted
+        for c, a, r in cs:
+            if c.meta["at"] is not None and r.status == "ok" and c.meta.get("open"):
+                fails.append(dict(describe(c.line, a), what="a text cut inside an item (after %r, segment tags pending) was accepted" % c.meta["last"][:40], law="cut-inside-item"))
         full = [x for x in cs if x[0].meta["at"] is None]
         if not full or full[0][2].status != "ok":
             continue
@@ -1929,6 +2001,8 @@ def c16_oracle(ctx, cases, impl, model):
             if r.status == "ok":
                 if last.startswith(SEGMENT_TAG_PREFIXES) and not last.startswith("#EXT-X-DISCONTINUITY-SEQUENCE"):
                     fails.append(dict(describe(c.line, a), what="a text cut right after the segment tag %r was accepted" % last[:40], law="cut-inside-item")); continue
+                if c.meta.get("open"):
+                    continue            # reported above
                 segs = [repr(s.node) for s in Media(r.obs).segments]
                 if segs != fobs[:len(segs)]:
                     # a MEDIA-SEQUENCE line behind the cut legitimately renumbers: compare only then
@@ -2542,6 +2616,29 @@ def c14_build(ctx):
         if not (v and u):
             toks = (["id=64"] if idp else []) + (["value=76"] if v else []) + (["uri=75"] if u else []) + (["lang=656e"] if l else [])
             cases.append(mk("build_tag:ExtXSessionData", " ".join(toks), group="SESSION-DATA-builder", meta={"exp": exp}))
+    # present-but-empty is present: an attribute with an empty (or blank) value counts for the rules exactly like one with content
+    # (the one exception the library makes is the URI of a key, covered below)
+    empt = [None, '"x"', '""', '" "']
+    for idp, v, u in itertools.product([None, '"d"', '""'], empt, empt):
+        attrs = (["DATA-ID=" + idp] if idp else []) + (["VALUE=" + v] if v else []) + (["URI=" + u] if u else [])
+        exp = idp is not None and ((v is not None) != (u is not None))
+        for order in (attrs, attrs[::-1]):
+            cases.append(mk("tag:ExtXSessionData", "#EXT-X-SESSION-DATA:" + ",".join(order), group="SESSION-DATA-empty-values", meta={"exp": exp}))
+        if not (v and u):
+            unq = lambda t: t[1:-1].encode().hex()
+            toks = (["id=" + unq(idp)] if idp else []) + (["value=" + unq(v)] if v else []) + (["uri=" + unq(u)] if u else [])
+            cases.append(mk("build_tag:ExtXSessionData", " ".join(toks), group="SESSION-DATA-empty-values", meta={"exp": exp}))
+    for t, uri, group, name, lang in itertools.product(["AUDIO", "SUBTITLES", "CLOSED-CAPTIONS"], empt, [None, '"g"', '""'], [None, '"n"', '""'], [None, '""']):
+        attrs = ["TYPE=" + t] + (["URI=" + uri] if uri else []) + (["GROUP-ID=" + group] if group else []) + (["NAME=" + name] if name else []) + \
+            (["LANGUAGE=" + lang] if lang else []) + (['INSTREAM-ID="CC1"'] if t == "CLOSED-CAPTIONS" else [])
+        exp = c14_media_rule(t, uri, group, name, None, None, None, "CC1" if t == "CLOSED-CAPTIONS" else None)
+        cases.append(mk("tag:ExtXMedia", "#EXT-X-MEDIA:" + ",".join(attrs), group="MEDIA-empty-values", meta={"exp": exp}))
+        cases.append(mk("tag:ExtXMedia", "#EXT-X-MEDIA:" + ",".join(attrs[::-1]), group="MEDIA-empty-values", meta={"exp": exp}))
+    for idp, cl, ed, eon in itertools.product([None, '"i"', '""'], [None, '"c"', '""'], [None, '"2010-02-19T15:54:23.031+08:00"', '""'], [None, "YES"]):
+        attrs = (["ID=" + idp] if idp else []) + (["CLASS=" + cl] if cl else []) + (["END-DATE=" + ed] if ed else []) + (["END-ON-NEXT=" + eon] if eon else [])
+        exp = idp is not None and (eon is None or (cl is not None and ed is None))
+        for order in (attrs, attrs[::-1]):
+            cases.append(mk("tag:ExtXDateRange", "#EXT-X-DATERANGE:" + ",".join(order), group="DATERANGE-empty-values", meta={"exp": exp}))
     # keys
     ivs = [None, "0x000102030405060708090a0b0c0d0e0f", "0X000102030405060708090A0B0C0D0E0F", "000102030405060708090a0b0c0d0e0f", "0x0001", "0x000102030405060708090a0b0c0d0e0g"]
     vers = [None, '"1"', '"1/2/5"', '"1/2/3/4/5/6/7/8/9"', '"1/2/3/4/5/6/7/8/9/10"', '"256"', '"x"']
@@ -2854,9 +2951,10 @@ def rfc_min_of_text(text):
         if l.startswith("#EXT-X-VERSION:"):
             nver += 1; ver = l[len("#EXT-X-VERSION:"):]
         elif l.startswith("#EXT-X-KEY:") or l.startswith("#EXT-X-SESSION-KEY:"):
-            if re.search(r"(^|[:,])\s*IV\s*=", l):
+            bare = re.sub(r'"[^"]*"', '""', l)          # attribute names are looked for outside the quoted strings
+            if re.search(r"(^|[:,])\s*IV\s*=", bare):
                 v = max(v, 2)
-            if re.search(r"(^|[:,])\s*KEYFORMAT(VERSIONS)?\s*=", l):
+            if re.search(r"(^|[:,])\s*KEYFORMAT(VERSIONS)?\s*=", bare):
                 v = max(v, 5)
         elif l.startswith("#EXTINF:"):
             d = l[len("#EXTINF:"):].split(",")[0]
@@ -2869,7 +2967,7 @@ def rfc_min_of_text(text):
         elif l.startswith("#EXT-X-MAP:"):
             v = max(v, 5); has_map = True
         elif l.startswith("#EXT-X-MEDIA:"):
-            if re.search(r'INSTREAM-ID="SERVICE', l):
+            if re.search(r'(^|[:,])\s*INSTREAM-ID\s*=\s*"SERVICE', re.sub(r'"[^"]*"', lambda m: m.group(0) if m.group(0).startswith('"SERVICE') else '""', l)):
                 v = max(v, 7)
     if has_map and not has_ifo:
         v = max(v, 6)
@@ -2885,6 +2983,9 @@ def c10_build(ctx):
         cases.append(mk("media", G.gen_media(rng, features=ctx.features)[0], group="generated-media"))
     for _ in range(ctx.n(3000, 60000)):
         cases.append(mk("master", G.gen_master(rng, features=ctx.features)[0], group="generated-master"))
+    # what the writer carries from one segment to the next (a tag it decides not to repeat must not leave the version behind)
+    for c in c03_consecutive():
+        cases.append(mk("media", c.payload, group="consecutive"))
     # feature lattice: each version-relevant feature on/off
     for iv, frac, br, ifo, kf, kfv, mp, sv in itertools.product([0, 1], repeat=8):
         ls = ["#EXTM3U", "#EXT-X-TARGETDURATION:10"]
@@ -3147,6 +3248,7 @@ def c20_build(ctx):
         rng.shuffle(calls)
         cases.append(mk("rt_master", t, group="master-text", meta={"mpair": i}))
         cases.append(mk("build_master", "\n".join(calls), group="master-builder", meta={"mpair": i}))
+    cases += c20_setter_twice()
     return cases
 
 
@@ -3154,9 +3256,57 @@ def strip_explicit(obs):
     return obs
 
 
+def c20_setter_twice():
+    """every setter of every builder called twice with different values must give what one call with the last value gives
+    (as every parser does with a repeated attribute / tag)"""
+    hx = lambda t: t.encode().hex()
+    iv1, iv2 = "00" * 15 + "01", "00" * 15 + "02"
+    T = {
+        "build_tag:ExtXDateRange": (["id=" + hx("i")], {"id": (hx("i"), hx("j")), "class": (hx("c"), hx("d")), "start": (hx("2010"), hx("2011")), "end": (hx("2010"), hx("2011")),
+                                                        "dur": ("1000000000", "2000000000"), "planned": ("1000000000", "2000000000"), "cmd": (hx("0xAB"), hx("0xCD")),
+                                                        "out": (hx("0xAB"), hx("0xCD")), "in": (hx("0xAB"), hx("0xCD")), "attr": ("582d41:S" + hx("v"), "582d41:S" + hx("w"))}),
+        "build_tag:ExtXMedia": (["type=AUDIO", "group=" + hx("g"), "name=" + hx("n")], {"type": ("VIDEO", "AUDIO"), "uri": (hx("u"), hx("v")), "group": (hx("g"), hx("h")), "lang": (hx("en"), hx("de")),
+                                                                                        "assoc": (hx("en"), hx("de")), "name": (hx("n"), hx("m")), "default": ("1", "0"), "autoselect": ("0", "1"),
+                                                                                        "forced": ("1", "0"), "chars": (hx("a"), hx("b")), "channels": ("2", "6")}),
+        "build_tag:ExtXSessionData": (["id=" + hx("d"), "value=" + hx("v")], {"id": (hx("d"), hx("e")), "value": (hx("v"), hx("w")), "lang": (hx("en"), hx("de"))}),
+        "build_tag:DecryptionKey": (["method=aes", "uri=" + hx("k")], {"method": ("saes", "aes"), "uri": (hx("k"), hx("l")), "iv": (iv1, iv2), "format": (hx("f"), hx("g")), "versions": ("1/2", "3")}),
+        "build_tag:StreamData": (["bw=1"], {"bw": ("1", "2"), "avg": ("1", "2"), "codecs": (hx("a,b"), hx("c")), "res": ("1x2", "3x4"), "hdcp": ("TYPE-0", "NONE"), "video": (hx("v"), hx("w"))}),
+    }
+    cases = []
+    n = 0
+    for op, (base, toks) in T.items():
+        for k, (v1, v2) in toks.items():
+            rest = [t for t in base if not t.startswith(k + "=")]
+            for first, second in ((v1, v2), (v2, v1)):
+                n += 1
+                cases.append(mk(op, " ".join(rest + ["%s=%s" % (k, first), "%s=%s" % (k, second)]), group="setter-twice", meta={"twice": n}))
+                cases.append(mk(op, " ".join(rest + ["%s=%s" % (k, second)]), group="setter-twice", meta={"twice": n}))
+    seg = "dur=1000000000 uri=" + hx("a")
+    M = {"td": ("10000000000", "11000000000"), "ms": ("5", "0"), "ds": ("1", "0"), "pt": ("VOD", "EVENT"), "ifo": ("1", "0"), "ind": ("1", "0"), "end": ("1", "0"),
+         "ex": ("1000000000", "0"), "unk": (hx("#EXT-X-FOO"), hx("#EXT-X-BAR"))}
+    for k, (v1, v2) in M.items():
+        for first, second in ((v1, v2), (v2, v1)):
+            for where in (0, 1):
+                n += 1
+                pre = [] if k == "td" else ["td 10000000000"]
+                two = ["%s %s" % (k, first), "push " + seg, "%s %s" % (k, second)] if where else ["%s %s" % (k, first), "%s %s" % (k, second), "push " + seg]
+                cases.append(mk("build_media", "\n".join(pre + two), group="setter-twice", meta={"twice": n}))
+                cases.append(mk("build_media", "\n".join(pre + ["%s %s" % (k, second), "push " + seg]), group="setter-twice", meta={"twice": n}))
+    return cases
+
+
 def c20_oracle(ctx, cases, impl, model):
     fails = []
     pairs, mpairs = {}, {}
+    twice = {}
+    for c, a in zip(cases, impl):
+        if "twice" in c.meta:
+            twice.setdefault(c.meta["twice"], []).append((c, a))
+    for n, items in twice.items():
+        if len(items) == 2 and C.project(items[0][1], {"status", "obs"}) != C.project(items[1][1], {"status", "obs"}):
+            d = describe(items[0][0].line, items[0][1])
+            d["context_lines"] = [items[1][0].line]
+            fails.append(dict(d, what="%s: calling a setter twice does not give what the last call alone gives" % items[0][0].op, law="setter-last-wins"))
     for c, a in zip(cases, impl):
         r = C.Resp(a)
         if r.status == "panic":
@@ -3289,8 +3439,8 @@ def c12_attr_variant(rng, line, ops):
                 rng.shuffle(pairs)
             if "unknown-attr" in ops:
                 for _ in range(rng.randint(1, 2)):
-                    pairs.insert(rng.randint(0, len(pairs)), (rng.choice(["FOO", "Y-NOT-CLIENT", "UNKNOWN-ATTR", "Z9", "BANDWIDTHX", "URI2"]),
-                                                             rng.choice(["1", '"a,b"', "YES", '"q=r"', "0x1", "NONE", '"METHOD=NONE"'])))
+                    # anywhere in the list, the first and the last place included
+                    pairs.insert(rng.choice([0, len(pairs), rng.randint(0, len(pairs))]), G.unknown_attr(rng, pairs, client_prefix_ok=not p.startswith("#EXT-X-DATERANGE")))
             if "pad-attr" in ops:
                 w = lambda: rng.choice(["", "", " ", "\t", "  "])
                 return p + ",".join(w() + k + w() + "=" + w() + v + w() for k, v in pairs)
@@ -3694,6 +3844,11 @@ C03_KINDS = {      # two values of each kind of segment tag (key lines first: a 
     "key": ('#EXT-X-KEY:METHOD=AES-128,URI="k"\n', '#EXT-X-KEY:METHOD=AES-128,URI="l"\n'),
     "key-iv": ('#EXT-X-KEY:METHOD=AES-128,URI="k",IV=%s01\n' % _IV, '#EXT-X-KEY:METHOD=AES-128,URI="k",IV=%s02\n' % _IV),
     "key-format": ('#EXT-X-KEY:METHOD=SAMPLE-AES,URI="k",KEYFORMAT="f"\n', '#EXT-X-KEY:METHOD=SAMPLE-AES,URI="k",KEYFORMAT="g"\n'),
+    # keys one attribute apart where the attribute has a default: absent / written explicitly
+    "key-identity": ('#EXT-X-KEY:METHOD=AES-128,URI="k"\n', '#EXT-X-KEY:METHOD=AES-128,URI="k",KEYFORMAT="identity"\n'),
+    "key-versions": ('#EXT-X-KEY:METHOD=AES-128,URI="k",KEYFORMAT="f"\n', '#EXT-X-KEY:METHOD=AES-128,URI="k",KEYFORMAT="f",KEYFORMATVERSIONS="1/2"\n'),
+    "key-iv0": ('#EXT-X-KEY:METHOD=AES-128,URI="k"\n', '#EXT-X-KEY:METHOD=AES-128,URI="k",IV=%s00\n' % _IV),
+    "key-method": ('#EXT-X-KEY:METHOD=AES-128,URI="k"\n', '#EXT-X-KEY:METHOD=SAMPLE-AES,URI="k"\n'),
     "map": ('#EXT-X-MAP:URI="i"\n', '#EXT-X-MAP:URI="j"\n'),
     "map-range": ('#EXT-X-MAP:URI="i",BYTERANGE="5@0"\n', '#EXT-X-MAP:URI="i",BYTERANGE="5@5"\n'),
     "daterange": ('#EXT-X-DATERANGE:ID="a",START-DATE="2010-02-19T14:54:23.031+08:00"\n', '#EXT-X-DATERANGE:ID="b",START-DATE="2010-02-19T14:54:23.031+08:00"\n'),
@@ -3722,7 +3877,7 @@ def c03_consecutive():
             out += body + inf + ("v.ts" if any("range" in t for t in segs) else "s%d.ts" % i) + "\n"
         return out + ("#EXT-X-ENDLIST\n" if "VOD" in head else "")
     cases = []
-    pats = [(0, 0), (0, 1), (0, None, 0), (None, 0, 0), (0, 0, 0), (0, 1, 0)]
+    pats = [(0, 0), (0, 1), (1, 0), (0, None, 0), (None, 0, 0), (0, 0, 0), (0, 1, 0), (1, 0, 1)]
     for hn, head in C03_HEADS.items():
         for k in C03_KINDS:
             for pat in pats:
